@@ -79,12 +79,13 @@ def pvv(nsym, tails, via, split=None):
     def h():
         pb = P().pinblock
         lp = choose('pinlen', [4] if nsym >= 12 else ([4, 12] if via == 'function' else [7]))
-        idx = choose('idx', [1] if nsym >= 12 else ([0, 9] if via == 'function' else [1]))
+        idx = choose('idx', [1] if nsym >= 12 else ([0, 9] if via == 'function' else [0, 1, 9, None]))
         pin = hex_string('pin', lp, digits_only=True)
         pan = hex_string('pan', 16, digits_only=True)
         key = hex_string('key', 32)
         keyb = key.__sunhexlify__()
-        tn = tsp_nibs(pin, pan, idx)
+        eff = 1 if idx is None else idx            # the documented default key index is 1
+        tn = tsp_nibs(pin, pan, eff)
         ctbv = cryptostub.reference_E('3DES', keyb, z3.Concat(*tn))
         ct = HexInt.from_bv(ctbv).nibs
         # bound: the last 16-nsym hex digits of the ciphertext take one of the listed concrete patterns
@@ -106,7 +107,7 @@ def pvv(nsym, tails, via, split=None):
                 out = pb.calculate_pvv(pin, key, idx, pan)
             else:
                 obj = pb.Iso0TDESPinBlockWithVisaPVV(pin, card_number=pan)
-                out = obj.to_pvv(key, key_index=idx)
+                out = obj.to_pvv(key, key_index=idx) if idx is not None else obj.to_pvv(key)
         out = SymStr.of(out)
         require(len(out.cells) == 4, 'PVV has %d digits' % len(out.cells), key='C14/pvv-length', replay=rp)
         spec = spec_pvv(ct)
@@ -125,9 +126,12 @@ def zmk(nparts):
     def h():
         k = P().key
         parts = [hex_string('part%d' % i, 32) for i in range(nparts)]
+        extra = {}
 
         def rp():
-            return {'kind': 'zmk', 'args': {'parts': [concretize_str(p, ev) for p in parts]}}
+            return {'kind': 'zmk', 'args': {'parts': [concretize_str(p, ev) for p in parts],
+                                            'master': concretize_str(extra['master'], ev) if 'master' in extra else None,
+                                            'kcvkeys': [symstr.concretize_bytes(b, ev).hex() for b in extra.get('kcvkeys', [])]}}
         with guard('get_zone_master_key', 'C14/zmk-exception', rp):
             clear, kcv = k.get_zone_master_key(*parts)
         want = [z3.BitVecVal(0, 4)] * 32
@@ -154,8 +158,18 @@ def zmk(nparts):
             kn = SymStr.of(k.calculate_kcv(keyb, n) if n else k.calculate_kcv(keyb, 0))
             require(len(kn.cells) == n and nibs_eq([symstr._nib_of_char(c) for c in kn.cells], e0[:n]) if n else len(kn.cells) == 0,
                     'calculate_kcv(kvc_length=%d)' % n, key='C14/kcv', replay=rp)
-        # encrypted zone key
-        master = hex_string('master', 32)
+        # key check value for single-, double- and triple-length keys
+        for kb in (8, 16, 24):
+            kk = hex_string('kcvkey%d' % kb, 2 * kb).__sunhexlify__()
+            extra.setdefault('kcvkeys', []).append(kk)
+            ek = HexInt.from_bv(cryptostub.reference_E('3DES', kk, z3.BitVecVal(0, 64))).nibs
+            with guard('calculate_kcv', 'C14/kcv-exception', rp):
+                got = SymStr.of(k.calculate_kcv(kk))
+            require(len(got.cells) == 6 and nibs_eq([symstr._nib_of_char(c) for c in got.cells], ek[:6]),
+                    'key check value of a %d-byte key is not the first six hex digits of E(key, zeros)' % kb, key='C14/kcv', replay=rp)
+        # encrypted zone key (double- and triple-length master keys)
+        master = hex_string('master', choose('masterlen', [32, 48]))
+        extra['master'] = master
         with guard('get_enc_zone_master_key', 'C14/zmk-exception', rp):
             enc, kcv2 = k.get_enc_zone_master_key(master, *parts)
         mb = master.__sunhexlify__()
